@@ -9,17 +9,17 @@ from harness.memrun import TICK, val_to_coq
 ID = "C16"
 RUN_MODULE = "Spec.TTLMap Model.Tags Model.Txn Model.TxnFault Run.C16"
 EXPLAIN = "explain"
-RULE = ("12 transactional programs (set / incr / delete / set_many / get over keys a, b, optionally a second backend registered under prefix "
+RULE = ("16 transactional programs (set / incr / delete / set_many / get / expire over keys a, b, optionally a second backend registered under prefix "
         "'p:') x 3 modes, the block written as a context manager, as a decorated function, or with mode and timeout taken from set_transaction_mode / set_transaction_timeout; a clean run records the trace of underlying backend commands (set_lock, get, delete_many, set_many, unlock ...); then "
         "EVERY single position and EVERY pair of positions of that trace is made to raise (quick), and every triple (thorough), in a fresh cache each time; every single position is also made to end with "
         "CancelledError (judged only on: the task has left the transaction); half of the cases run on a backend with latency; "
-        "observed: exception seen by the caller, whether a write issued right after the block reaches the store, lock keys left, data of both "
+        "observed: exception seen by the caller, whether a write issued right after the block reaches the store, lock keys left, values and remaining lifetimes of the data keys of both "
         "stores. non-trivial: the fault hits the commit or the lock release (not the first body command)")
 TRUSTED_BASE = ["Coq 8.16.1 kernel + vm_compute", "hand-written model coq/Model/TxnFault.v (try/finally and context-manager exit order transcribed) tied by this differential run",
                 "a fault = the command raises and has no effect (the wrapper raises before calling the backend)",
                 "in every other case the wrapped backend commands take one event-loop turn before they execute (a backend with latency); the model has no latency: the order of commands is what is compared",
                 "the order in which a Python set of lock keys is iterated is observed in the clean run and given to the model"]
-ASSUMPTIONS = ["single task (no lock contention)", "TTL-less writes in the body (one set_many group at commit)", "data keys never start with ':'"]
+ASSUMPTIONS = ["single task (no lock contention)", "at most one overlay entry with a TTL, written after the TTL-less ones (commit issues one set_many per TTL group in the overlay's order; the model puts the TTL-less group first)", "data keys never start with ':'"]
 EXHAUSTIVE = {"quick": True, "thorough": True}
 U = ["a", "b", "p:a"]
 
@@ -41,6 +41,11 @@ PROGRAMS = [
     [[0, ["set", "a", 1]], [0, ["delete", "a"]], [0, ["incr", "a"]]],
     [[0, ["delete", "b"]], [1, ["delete", "p:a"]], [0, ["get", "a"]]],
     [[0, ["set_many", [["a", 3], ["b", 4]]]], [1, ["get", "p:a"]], [1, ["set", "p:a", 9]]],
+    # expire inside the block: a write like any other (locked, kept in the overlay, applied at commit only)
+    [[0, ["expire", "a", 2]]],
+    [[0, ["set", "a", 1]], [0, ["expire", "a", 2]]],
+    [[0, ["incr", "b"]], [0, ["expire", "a", 2]]],
+    [[0, ["expire", "a", 2]], [0, ["get", "b"]]],
 ]
 WRAPPED = ["set_lock", "unlock", "get", "exists", "get_many", "scan", "set_many", "delete_many", "get_expire"]
 
@@ -119,6 +124,7 @@ def _run(case):
                 elif c[0] == "delete": await cache.delete(c[1])
                 elif c[0] == "set_many": await cache.set_many({k: v for k, v in c[1]})
                 elif c[0] == "get": await cache.get(c[1])
+                elif c[0] == "expire": await cache.expire(c[1], c[2])
             state["phase"] = "exit"
         # three forms of the same block, chosen by the case: context manager, decorated function, and the timeout taken from
         # set_transaction_timeout() instead of the call (never the default 10 s: the TTL of a lock left behind must be this one)
@@ -138,6 +144,9 @@ def _run(case):
             raised = "Fault"
         except BaseException as e:  # noqa
             raised = type(e).__name__
+        def lock_snapshot():
+            return [{k: (round((m.store[k][0] - vclock.Clock.now) / TICK) if m.store[k][0] is not None else -1) for k in m.store if k.startswith(":")} for m in mems]
+        at_exit = lock_snapshot()      # the very moment the block is left: a release handed to a later event-loop turn has not happened yet
         for _ in range(5):
             await asyncio.sleep(0)
         state["armed"] = False
@@ -146,11 +155,14 @@ def _run(case):
         except Exception as e:  # noqa
             pass
         stuck = "probe" not in mems[0].store
-        locks_left = [sorted(k for k in m.store if k.startswith(":")) for m in mems]
-        lock_life = [[round((m.store[k][0] - vclock.Clock.now) / TICK) if m.store[k][0] is not None else -1 for k in sorted(m.store) if k.startswith(":")] for m in mems]
+        # lock keys present when the block was left OR a few event-loop turns later (an acquisition still in flight lands late)
+        both = [dict(a, **b) for a, b in zip(at_exit, lock_snapshot())]
+        locks_left = [sorted(d) for d in both]
+        lock_life = [[d[k] for k in sorted(d)] for d in both]
         data = [[(m.store[k][1] if k in m.store else None) for k in U] for m in mems]
+        dlife = [[(-2 if k not in m.store else -1 if m.store[k][0] is None else round((m.store[k][0] - vclock.Clock.now) / TICK)) for k in U] for m in mems]
         await cache.close()
-        return {"trace": trace, "raised": raised, "stuck": stuck, "locks_left": locks_left, "lock_life": lock_life, "data": data, "nb": len(mems)}
+        return {"trace": trace, "raised": raised, "stuck": stuck, "locks_left": locks_left, "lock_life": lock_life, "data": data, "dlife": dlife, "nb": len(mems)}
     return vclock.run(go)
 
 
@@ -174,6 +186,7 @@ def _bcmd(c):
     if c[0] == "incr": return C("BIncr", S(c[1]))
     if c[0] == "delete": return C("BDel", S(c[1]))
     if c[0] == "set_many": return C("BSetMany", [(S(k), val_to_coq(v)) for k, v in c[1]])
+    if c[0] == "expire": return C("BExpire", S(c[1]), Z(c[2] * 16))
     return C("BGet", S(c[1]))
 
 
@@ -195,7 +208,7 @@ def to_coq(case, obs):
     data = [[None if v is None else Some(val_to_coq(v)) for v in d] for d in obs["data"]]
     return C("CFault", md, [S(k) for k in U], Z(1), init, cs, [Nat(b) for b in obs["used"]], [[S(k) for k in o] for o in obs["order"]],
              [Nat(p) for p in case["faults"]], fds, raised, bool(obs["stuck"]), [[S(k) for k in l] for l in obs["locks_left"]], data,
-             [[Z(x) for x in l] for l in obs["lock_life"]])
+             [[Z(x) for x in l] for l in obs["lock_life"]], [[Z(x) for x in l] for l in obs["dlife"]])
 
 
 def nontrivial(case, obs):
